@@ -252,10 +252,33 @@ def run(tier: str, seed: int) -> Dict[str, Any]:
                              "replay": {"kind": "noauto", "fs": c["fs"], "expected": exp, "got": got, "error": repr(err)[:300],
                                         "yaml_fields": {f"f{i}": field_text(k, 7 + j + i) for i, k in enumerate(c["fs"])}}})
             os.remove(path)
+        # ---- parsers with different options alive at the same time: each keeps its own options ----------------
+        nco = 0
+        for j, c in enumerate(rnd.sample(small, 300 if q else 3000)):
+            path = os.path.join(d, f"co{j}.yaml")
+            defs.write_prog({os.path.basename(path): batch_yaml([c], 11 + j, j % 2 == 0)}, d)
+            older_strict = j % 2 == 0
+            older = defs.make_parser(auto_pad=not older_strict)
+            younger = defs.make_parser(auto_pad=older_strict)          # created later, with the opposite option
+            p, err = defs.parse_on(older, path)
+            nco += 1
+            exp = c["noauto"] if older_strict else c["auto"]
+            got = "ok" if err is None else type(err).__name__
+            if got != exp:
+                viol.append({"signature": f"C11/AcceptRejectBoundary/two-parsers:expected:{exp}:got:{got}:auto_pad={not older_strict}",
+                             "replay": {"kind": "coexist", "fs": c["fs"], "expected": exp, "got": got, "older_auto_pad": not older_strict}})
+            elif err is None and older_strict:
+                sig = defs.parser_signature(p)
+                ent = (sig["messages"] if j % 2 == 0 else sig["structs"]).get(f"D{11 + j}")
+                if ent is not None and any(f["name"].startswith("padding_") for f in ent["fields"]):
+                    viol.append({"signature": "C11/HiddenPadding/two-parsers:padding-inserted-with-auto_pad-off",
+                                 "replay": {"kind": "coexist", "fs": c["fs"], "got": ent}})
+            del younger
+            os.remove(path)
     finally:
         shutil.rmtree(d, ignore_errors=True)
     cov = {"states": mc.get("distinct", 0) + mcb.get("distinct", 0), "transitions": mc.get("states", 0) + mcb.get("states", 0),
-           "traces_validated_against_impl": nparsed + noff + nbig,
+           "traces_validated_against_impl": nparsed + noff + nbig + nco, "parsed_with_two_parsers_alive": nco,
            "sequences_enumerated_by_tlc": len(cases), "parsed_auto_pad_on": nparsed, "parsed_auto_pad_off": noff, "size_limit_cases": nbig,
            "gcc_batches": ngcc, "exhaustive": not q,
            "samples": [{"field_sequence": sample[len(sample) // 2]["fs"], "expected_layout": sample[len(sample) // 2]["lay"]}],
